@@ -89,5 +89,29 @@ Fixpoint agree_from (fx : bool) (ss : list st) (bs : list (list op * obs)) : boo
 (* The model is compared as pinned (fx=false) and with the repair (fx=true): the implementation must be
    one of them. *)
 Definition check_case (c : case) : bool * bool :=
-  (agree_from false [st0] (c_batches c) || agree_from true [st0] (c_batches c),
+  (agree_from true [st0] (c_batches c) || agree_from false [st0] (c_batches c),
    ok_case_from [] (c_batches c)).
+
+(* ---------- diagnostics for ./check C44 --replay ---------- *)
+(* oracle verdict batch by batch *)
+Fixpoint ok_batches (S : live) (bs : list (list op * obs)) : list bool :=
+  match bs with
+  | [] => []
+  | (ops, o) :: t => let S' := fold_left live_step ops S in ok_obs S' o :: ok_batches S' t
+  end.
+
+(* number of leading batches the model reproduces, and what the model could have observed at the first
+   batch where it cannot follow the implementation *)
+Fixpoint diag_from (fx : bool) (ss : list st) (bs : list (list op * obs)) (k : nat) : nat * list obs :=
+  match bs with
+  | [] => (k, [])
+  | (ops, o) :: t =>
+      let all := dedupe (flat_map (fun s => apply_all fx s ops) ss) in
+      match filter (fun s => obs_eqb (observe s) o) all with
+      | [] => (k, map observe all)
+      | next => diag_from fx next t (S k)
+      end
+  end.
+
+Definition diag (c : case) : list bool * (nat * list obs) * (nat * list obs) :=
+  (ok_batches [] (c_batches c), diag_from false [st0] (c_batches c) 0, diag_from true [st0] (c_batches c) 0).
